@@ -204,3 +204,9 @@ def run(ctx):
     r5.good(f"{sm.rel}:JobEnv:identity", f"fields {sorted(own_fields)}")
     decs = [d for cm, cc in repo.mro(sm, envc) for d in cc.decorator_list]
     r5.check(not any("dataclass" in src(d) or "total_ordering" in src(d) for d in decs), f"{sm.rel}:JobEnv:decorators", "Job/JobEnv is a dataclass (generated __eq__): environments no longer compare by identity", sm.rel, envc.lineno)
+
+    # ---- C26.6 (the obligations of C05.4: the context hash a job is keyed and tagged by is the hash of its own context) ----
+    from ..report import BorrowCtx
+    from . import C05 as _borrowed_C05
+
+    _borrowed_C05.run(BorrowCtx(ctx, {"C05.4": "C26.6"}))
